@@ -394,22 +394,46 @@ def check_c07(prog, rep, tier, cfg):
             conds = dominating_conditions(cl, c.bb)
             if any(x[0] == "call" and x[1].endswith("is_ignored") and x[3] is True for x in conds):
                 ign_pushes.append((c, ao))
-        kinds = sorted(sorted(x[2].split("::")[-1] for x in ao if x[0] == "call") for _, ao in ign_pushes)
-        rep.check(kinds == [["get_leading_whitespace"], ["get_newline_str"]], R, "ignored-arm-pushes", "the ignored arm of reconstruct pushes %s (expected the safety-net newline and the original leading whitespace)" % kinds,
-                  instance={"ignored_arm_pushes": kinds})
-        # original whitespace is pushed on every path of the ignored arm
-        wsp = [c for c, ao in ign_pushes if any(x[0] == "call" and x[2] == GET_WS for x in ao)]
-        if wsp:
-            isb = [c for c in cl.calls() if c.callee == LANG + "FormattingData::is_ignored"]
-            sw = isb[0].t["target"] if isb else None
-            true_tgt = None
-            if sw is not None:
-                t = cl.blocks[sw]["term"]
-                if t["k"] == "switch":
-                    true_tgt = t["otherwise"]
-            content = [c for c, k2, ao in pushes if any(x[0] == "call" and x[2] == GET_CONTENT for x in ao)]
-            ok = true_tgt is not None and content and bfs_path(cl, true_tgt, {content[0].bb}, {wsp[0].bb}) is None
-            rep.check(ok, R, "ignored-arm-always-copies-whitespace", "a path through the ignored arm reaches the content push without copying the original leading whitespace")
+        # per path of the ignored arm: what is written in front of the token's text is the original whitespace, preceded at most by the
+        # safety-net line break (only when the flag may be set and the kept whitespace has no line break of its own)
+        import c02 as _c02
+        try:
+            tb = _c02.emission_table(prog, cl)
+        except Exception as e:
+            tb = None
+            rep.fail(R, "ignored-arm-pushes", "emission closure is not a loop-free classifier any more: %s" % e)
+        ups = cl.j.get("upvars", [])
+        fk = [i for i, u in enumerate(ups) if "must_break" in str(u)]
+        flag = "arg1.%d" % fk[0] if fk else None
+        bad, nign, shapes = [], 0, set()
+        for (cons, _res), calls in zip(tb.rows if tb else [], tb.calls if tb else []):
+            cd = {}
+            for c in cons:
+                if c[0] == "cond":
+                    cd.setdefault(c[1], c[2])
+            ign = [v for k, v in cd.items() if k.startswith("is_ignored(")]
+            if not ign or ign[0] == 0:
+                continue
+            nign += 1
+            seq = []
+            for n2, a in calls:
+                sn = n2.split("::")[-1]
+                if sn in ("push_str", "push", "for_each", "extend", "write_str", "insert_str") or _layout_is_repeat(prog, n2):
+                    arg = a[-1] if a else ""
+                    seq.append("newline" if "get_newline_str(" in arg else "whitespace" if re.match(r"^get_leading_whitespace\(arg2\.0\)$", arg) else
+                               "content" if re.match(r"^get_content\(arg2\.0\)$", arg) else "%s(%s)" % (sn, arg[:50]))
+            shapes.add(tuple(seq))
+            if seq == ["whitespace", "content"]:
+                continue
+            if seq == ["newline", "whitespace", "content"]:
+                has_nl = [v for k, v in cd.items() if k.startswith("contains(get_leading_whitespace(")]
+                if (flag is None or cd.get(flag) != 0) and has_nl and has_nl[0] == 0:
+                    continue
+                bad.append("a line break is added in front of a verbatim token although %s" % ("the kept whitespace was not tested for one" if not has_nl else "nothing requires it"))
+                continue
+            bad.append("writes %s" % seq)
+        rep.check(nign >= 2 and not bad, R, "ignored-arm-pushes", "on %d of %d paths of the ignored arm, reconstruct does not write {[safety-net line break] original whitespace, text}: %s" % (len(bad), nign, bad[:2]),
+                  instance={"ignored_paths": nign, "shapes": sorted(" ".join(x) for x in shapes)})
         # no counter is read on the ignored arm
         cnt_reads = []
         for f in ("newlines_before", "indentations_before", "continuations_before", "spaces_before"):
@@ -644,6 +668,11 @@ def _subterms(x):
         out.append(sc)
         st.extend(sc[1])
     return out
+
+
+def _layout_is_repeat(prog, n):
+    import layout as _ly
+    return _ly.is_repeat_push_helper(prog, n)
 
 
 def asm_ignorer_marks(prog, rep, R, R2):
